@@ -61,7 +61,9 @@ CLAIMED = {
             "conversion; residual oracle with an independent fixed-point reconstruction of the smuon sector",
             "Generated on-shell points, perturbations up to 5 % and precision goals over six decades; chargino, bino-like "
             "neutralino, sneutrino and right-smuon residuals are compared with the requested precision whenever no warning "
-            "is raised, and the original parameters and a_mu must be recovered on the well-conditioned subset.",
+            "is raised, and the original parameters and a_mu must be recovered on the well-conditioned subset; the iteration "
+            "limit is varied (1..1000) so that the root-finder fallback and the non-convergence records are exercised, and a "
+            "record must be consistent with its flag.",
             "one open known finding (F-9: final Yukawa re-resummation); smuon matrix rebuilt in Python/mpmath",
             "4/C05"),
     "C06": ("property-based testing (Hypothesis): metamorphic relation between a parameter point and its joint sign flip",
@@ -81,8 +83,9 @@ CLAIMED = {
             "Generated base points and coincidence targets (equalities, sums/differences, doubles/halves, Kaellen zeros, "
             "MZ, MW, 2MW, m_hSM, fermion masses); 23 offsets per path down to 1e-13; every a_mu component must be finite and "
             "stay within 1 % of the chord.",
-            "magnitudes of cancelling sums are measured by their terms; three open known findings (removable "
-            "singularities of the two-loop THDM formulas)",
+            "magnitudes of cancelling sums are measured by their terms; open known findings (removable singularities of the "
+            "two-loop THDM formulas) are matched by coincidence class AND kind of failure (finite jump below a cap vs "
+            "non-finite value at named offsets)",
             "4/C11"),
     "C17": ("property-based testing (Hypothesis): model-based generation of C-API call histories as data, executed in "
             "lock-step against a C++ mirror object inside the sanitizer executor",
@@ -97,13 +100,15 @@ CLAIMED = {
             "Generated models, function subsets/orders, interleaved foreign models and batches are checked for argument "
             "preservation (getter dump + raw object image hash), bit-identical repeatability, copy- and history-independence; "
             "generated 2..16-thread plans (own and shared const models, concurrent construction, yields) must produce zero "
-            "TSan reports and exactly the sequential results.",
+            "TSan reports and exactly the sequential results; one point of every batch is re-evaluated alone in a fresh "
+            "executor process (history-free reference for state frozen at a first call).",
             "TSan sees only executed interleavings; std::cerr writes of the library are suppressed (not part of the property)",
             "4/C19"),
     "C20": ("property-based testing (Hypothesis): unitarity and rejection oracle for CKM construction, defining relations "
             "of EW quantities, monotonicity/composition/boundary relations and an mpmath reference for running masses",
             "Generated Wolfenstein parameters inside/at/outside the admissible box, angles, SM inputs and scales over "
-            "six decades; running-coupling bypass checked through the THDM Yukawa getters.",
+            "six decades; an in-range input may be refused only if the independently computed |V_ub| exceeds 1; "
+            "running-coupling bypass checked through the THDM Yukawa getters.",
             "m_b(SM5) reference re-implements hep-ph/0207126 formulas; one open known finding (Landau pole above m_b)",
             "4/C20"),
     "C12": ("property-based testing (Hypothesis): validity predicates on every decomposition overload (reconstruction in the "
@@ -138,7 +143,9 @@ CLAIMED = {
             "cross-format agreement, arithmetic consistency of the detailed report (grammar-based parsing)",
             "Generated valid inputs of the three formats x flag combinations, each executed in all five output formats; "
             "printed numbers are compared with the API to printed precision, sums and percentages are recomputed, SLHA "
-            "echo is compared block-wise. The thorough tier enumerates all 96 flag combinations per input (480 runs).",
+            "echo is compared block-wise; inputs that already carry output blocks with stale values (sub-check stale_output) "
+            "must get the selected entry replaced and everything else echoed. The thorough tier enumerates all 96 flag "
+            "combinations per input (480 runs).",
             "input generator and SLHA tools of pbt/common/slha.py (shared with C13); sampling of inputs",
             "4/C15"),
     "C16": ("property-based testing (Hypothesis): fault injection of documented defects into valid points, expectation "
@@ -151,7 +158,8 @@ CLAIMED = {
     "C18": ("property-based testing (Hypothesis): documented uncertainty sums recomputed from the public a_mu functions; "
             "overload differential",
             "Generated MSSM and THDM models including light new physics and cancelling loop orders; finiteness, sign, "
-            "floors, the documented sums and bit-identity of the precomputed-value overloads are checked on every model.",
+            "floors, the documented sums (incl. the THDM two-loop estimate with its new-physics scale) and bit-identity of "
+            "the precomputed-value overloads are checked on every model.",
             "the documented sums are those of the doxygen comments / README; sampling, not proof",
             "4/C18"),
 }
